@@ -407,6 +407,44 @@ func (b *builder) elim(list []ast.Stmt, k []ast.Stmt, guards []guard, depth int)
 			continue
 		}
 		rest := list[i+1:]
+		// a switch some of whose clauses return: what follows the switch moves to the end of every clause that falls
+		// out of it (and into a default clause if there is none), like the branches of an if
+		if sw, ok := s.(*ast.SwitchStmt); ok && b.anyExit([]ast.Stmt{sw}, guards) {
+			K := concatStmts(rest, k)
+			structured := !containsBranch(sw) && !(b.mode.consumer != nil && containsBranch(b.mode.consumer))
+			ast.Inspect(sw, func(n ast.Node) bool {
+				if br, ok := n.(*ast.BranchStmt); ok && (br.Tok == token.FALLTHROUGH || br.Tok == token.GOTO) {
+					structured = false
+				}
+				return structured
+			})
+			for _, ks := range K {
+				if containsBranch(ks) {
+					structured = false
+				}
+			}
+			if structured {
+				g := guards
+				if sw.Init != nil {
+					g = invalidate(g, sw.Init)
+				}
+				hasDefault := false
+				for _, cl := range sw.Body.List {
+					cc := cl.(*ast.CaseClause)
+					if cc.List == nil {
+						hasDefault = true
+					}
+					cc.Body = b.elim(cc.Body, b.cloneList(K), append([]guard{}, g...), depth+1)
+				}
+				if !hasDefault {
+					if body := b.elim(nil, b.cloneList(K), append([]guard{}, g...), depth+1); len(body) > 0 {
+						sw.Body.List = append(sw.Body.List, &ast.CaseClause{Case: sw.Body.Rbrace, Body: body})
+					}
+				}
+				out = append(out, sw)
+				return out
+			}
+		}
 		switch st := s.(type) {
 		case *ast.ReturnStmt:
 			r, kind := b.replaceReturn(st, guards)
